@@ -145,10 +145,13 @@ ConvNames == {"from_level", "into_level", "from_option", "as_log_level", "as_tra
 ConvDomain(n) == IF n \in {"from_level", "as_log_level", "as_trace_level"} THEN LevelRanks ELSE FilterRanks
 ConvCases == { [k |-> "conv", f |-> n, v |-> v] : n \in ConvNames, v \in FilterRanks }
 SetMaxCases == { [k |-> "setmax", v |-> v] : v \in FilterRanks }
+\* a history of two publications in one process: the value read back is the LAST one published
+\* (MAX_LEVEL is process-global state; `w` is published first, then `v`)
+SetMax2Cases == { [k |-> "setmax2", w |-> w, v |-> v] : w \in FilterRanks, v \in FilterRanks }
 
 Cases == {c \in CmpCases \cup SelCases \cup EnCases : WellKinded(c)}
          \cup ParseCases \cup {c \in PrintCases : c.v \in RanksOf(c.ty)}
-         \cup {c \in ConvCases : c.v \in ConvDomain(c.f)} \cup SetMaxCases
+         \cup {c \in ConvCases : c.v \in ConvDomain(c.f)} \cup SetMaxCases \cup SetMax2Cases
 
 \* every conversion is the identity on ranks (an order-preserving bijection); into_level(OFF) = None = 0
 A(c) == CASE c.k = "cmp"   -> AOp(c.op, c.l, c.r)
@@ -156,11 +159,13 @@ A(c) == CASE c.k = "cmp"   -> AOp(c.op, c.l, c.r)
           [] c.k = "print" -> APrint(c.ty, c.v)
           [] c.k = "conv"  -> c.v
           [] c.k = "setmax" -> c.v
+          [] c.k = "setmax2" -> c.v
 M(c) == CASE c.k = "cmp"   -> MOp(c.op, c.l, c.r)
           [] c.k = "parse" -> MParse(c.ty, c.s)
           [] c.k = "print" -> APrint(c.ty, c.v)
           [] c.k = "conv"  -> Dec(Enc(c.v))
           [] c.k = "setmax" -> Dec(Enc(c.v))
+          [] c.k = "setmax2" -> Dec(Enc(c.v))      \* set_max is an unconditional swap
 
 (* ------------------------- enumeration as a spec ----------------------- *)
 VARIABLE case
